@@ -649,11 +649,27 @@ def run_program(case, with_faults=True, with_writes=True):
         k = 0
         fms_now = bool(case.get("fms", False))
         run.steps[-1]["fms"] = fms_now
-        for seg in case["hist"]:
+        early = case.get("early") or {}
+        pending_via = None
+        for seg_i, seg in enumerate(case["hist"]):
             mode, dwell = seg[0], seg[1]
             if not drv.alive():
                 break
-            if len(seg) > 2:
+            if dwell == 0 and seg_i + 1 < len(case["hist"]):
+                # a visit of zero iterations: the driver station moves on while the hooks that open this mode are still
+                # running (the change is made from inside the h-th of them); the loop never iterates and the mode is left
+                nxt = case["hist"][seg_i + 1][0]
+                ex_ = Expect(rs, run.order)
+                opening = ex_.enter(mode)
+                # the hooks that close the previous mode run first and may carry the same tags (on_disable): skip those
+                skip = sum(1 for t in ex_.leave(prev) if t in set(opening))
+                CTX.ds_action = {"tags": set(opening), "after": skip + 1 + seg_i % max(1, len(opening)), "fn": (lambda _m=nxt: drv.set_mode(_m))}
+                drv.set_mode(mode)
+                pending_via = mode
+                continue
+            if pending_via is not None:
+                pass  # the callback armed above moves the driver station to this segment's mode
+            elif len(seg) > 2:
                 # the flag changes while the robot thread is idle; the loop's next refreshData() sees the new
                 # mode and the new flag together, so every callback of a step runs under one flag value
                 fms_now = bool(seg[2])
@@ -672,8 +688,19 @@ def run_program(case, with_faults=True, with_writes=True):
                     st_["fms"] = fms_now
                     st_["jump"] = jump
                 else:
+                    if i == dwell - 1 and str(seg_i) in early and seg_i + 1 < len(case["hist"]) and case["hist"][seg_i + 1][1] > 0 and len(case["hist"][seg_i + 1]) <= 2:
+                        # the change to the next mode arrives while the last iteration of this segment is still running
+                        # (from inside its h-th callback): the iteration is completed, the next one belongs to the new mode
+                        its = [t for e in Expect(rs, run.order).iteration(mode) for t in (sorted(e) if isinstance(e, frozenset) else [e])]
+                        if its:
+                            CTX.ds_action = {"tags": set(its), "after": 1 + early[str(seg_i)] % len(its), "fn": (lambda _m=case["hist"][seg_i + 1][0]: drv.set_mode(_m))}
                     drv.step_to_alarm()
-                    record(mode, "first" if (i == 0 and mode != prev) else "iter")["fms"] = fms_now
+                    st_ = record(mode, "first" if (i == 0 and (mode != prev or pending_via is not None)) else "iter")
+                    st_["fms"] = fms_now
+                    if i == 0 and pending_via is not None:
+                        st_["via"] = pending_via
+                        pending_via = None
+                    CTX.ds_action = None
                 if not drv.alive():
                     break
             prev = mode
@@ -996,12 +1023,36 @@ def robot_cases(pid, deep=False):
         elif pid in ("C06", "C05") and fms and fcode[0][1] >= 3:
             # with the FMS attached a raising callback must not disturb the lifecycle either
             case["faults"] = decode_faults(fcode, rs)
+        if pid in ("C05", "C06", "C10") and wcode and wcode[0][1] % 2 == 0:
+            # some mode changes arrive while an iteration is still running (made from inside one of its callbacks)
+            case["early"] = {str(j): 1 + (w[2] % 4) for j, w in enumerate(wcode) if j + 1 < len(case["hist"])}
+        if pid == "C06" and not case.get("faults") and len(case["hist"]) >= 3 and fcode[0][0] % 3 == 0:
+            # one visit of zero iterations (the driver station moves on during the hooks that open the mode)
+            j = 1 + fcode[0][0] % (len(case["hist"]) - 2)
+            m = case["hist"][j][0]
+            opens = {"disabled": any(c.get("dis") for c in rs["comps"]) or "disabledInit" in rs["hooks"],
+                     "auto": any(c.get("en") for c in rs["comps"]) or "autonomousInit" in rs["hooks"] or bool(active_mode(rs)),
+                     "teleop": any(c.get("en") for c in rs["comps"]) or "teleopInit" in rs["hooks"], "test": "testInit" in rs["hooks"]}[m]
+            late = any(c.get("late_dis") for c in rs["comps"])
+            if opens and not late and case["hist"][j + 1][0] != m and len(case["hist"][j + 1]) <= 2 and len(case["hist"][j]) <= 2:
+                case["hist"][j][1] = 0
+                case.pop("early", None)
+                case.pop("jumps", None)
         elif pid in ("C10", "C11"):
             case["fms"] = True if fcode and fcode[0][1] >= 2 else fms
             if case["fms"] and fcode[0][1] >= 2:
                 case["faults"] = decode_faults(fcode, rs)
         if pid == "C10":
             case["writes"] = decode_writes(wcode, rs)
+            if case.get("early") and "teleopPeriodic" in rs["hooks"] and case["writes"]:
+                # the driver station leaves teleop while teleopPeriodic() of an iteration is running, and that very call
+                # assigned a marked attribute: the iteration is still completed and ends with the reset
+                for j, seg in enumerate(case["hist"][:-1]):
+                    if seg[0] == "teleop" and case["hist"][j + 1][1] > 0 and len(case["hist"][j + 1]) <= 2:
+                        n = sum(x[1] for x in case["hist"][: j + 1] if x[0] == "teleop" or (x[0] == "auto" and rs.get("tia")))
+                        case["early"][str(j)] = 0  # -> fires inside the first callback of the iteration = teleopPeriodic
+                        case["writes"].append(dict(case["writes"][0], by="robot.teleopPeriodic", n=n))
+                        break
         if pid == "C05":
             case["chunks"] = [c for c in ccode]
             if wcode:
@@ -1054,6 +1105,10 @@ class RobotLab(Lab):
             cl.add("teleop-in-auto")
         if case.get("fms"):
             cl.add("fms")
+        if any(st_.get("via") for st_ in getattr(run, "steps", [])):
+            cl.add("zero-iteration-visit")
+        if case.get("early"):
+            cl.add("mode-change-arrives-mid-iteration")
         seq = [h[0] for h in case["hist"]]
         for a, b in zip(seq, seq[1:]):
             if a != "disabled" and b != "disabled":
@@ -1154,6 +1209,8 @@ class C06(RobotLab):
             obs = tags(s)
             if s["kind"] == "boot":
                 want = ex.boot() + ex.enter("disabled") + ex.iteration("disabled")
+            elif s["kind"] == "first" and s.get("via"):
+                want = ex.leave(prev) + ex.enter(s["via"]) + ex.leave(s["via"]) + ex.enter(s["mode"]) + ex.iteration(s["mode"])
             elif s["kind"] == "first":
                 want = ex.leave(prev) + ex.enter(s["mode"]) + ex.iteration(s["mode"])
             elif s["kind"] == "shutdown":
